@@ -157,7 +157,7 @@ let () =
     (* C07: the implementation caches exactly what the spec cache holds *)
     let ic = impl_cache d in
     if not (c_same_content !spec ic) then begin
-      let capn = int_of_n (!spec).c_cap in
+      let capn = (if N.ltb (!spec).c_cap (n_of_int 1000000000) then int_of_n (!spec).c_cap else 1000000000) in
       let names l = String.concat ";" (List.sort compare (List.map (fun e -> Printf.sprintf "%s[%d,%d]" (string_of_name e.cs_name) (int_of_n e.cs_wire) (int_of_z e.cs_stale)) l)) in
       let is_insert = String.length !last_op >= 3 && (String.sub !last_op 0 3 = "ins" || String.sub !last_op 0 3 = "dat") in
       let sg = if is_insert && List.length ic > capn && List.length ic > List.length (!spec).c_list then "over-capacity"
@@ -220,7 +220,7 @@ let () =
           last_op := "adv"
       | ["op"; "cap"; c] ->
           incr nops;
-          ignore (apply (OCap (n_of_int (int_of_string c)))); spec := c_setcap !spec (n_of_int (int_of_string c)); last_op := "cap " ^ c
+          ignore (apply (OCap (z_of_int (int_of_string c)))); spec := c_setcap !spec (z_of_int (int_of_string c)); last_op := "cap " ^ c
       | ["op"; "ins"; n; w; f] ->
           incr nops;
           let nn = name_of_string n and w' = n_of_int (int_of_string w) and f' = ms_ns (opt_n f) in
